@@ -135,5 +135,11 @@ def prove_lemma(lem: Lemma, axioms: Sequence[Any], lib: SpecLib, timeout_ms: int
         hyps, goal = build(bank)
         ob = Obligation(name=f"lemma:{lem.name}/{cname}", hyps=hyps, goal=goal, kind="lemma", bank=bank)
         discharge(ob, axioms, lib, timeout_ms, lemma_rules=set(lem.uses), prefer_cvc5=lem.prefer_cvc5)
+        if ob.status == "discharged" and hyps:
+            # vacuity canary: the hypotheses of the case (induction hypothesis, quantified facts, instances of earlier lemmas) must not be contradictory
+            can = Obligation(name=ob.name + "/canary", hyps=hyps, goal=z3.BoolVal(False), kind="lemma", bank=TermBank())
+            discharge(can, axioms, lib, 3000, use_cvc5=False, lemma_rules=set(lem.uses))
+            if can.status == "discharged":
+                ob.status, ob.model = "unknown", "vacuous: the hypotheses of this lemma case are contradictory"
         out.append(ob)
     return out
